@@ -1,6 +1,7 @@
 //! Reference models ("oracles").  Written from the property texts, in plain
 //! Rust; nothing in here calls into microscpi.
 pub mod header;
+pub mod lexscan;
 pub mod literal;
 pub mod msg;
 pub mod response;
